@@ -48,6 +48,13 @@ for _base in (ValueError, OSError, LookupError, Exception):
     EXC['Error/' + _base.__name__] = type('Error', (_base,), {})
 
 
+# "twins": classes with the names of the Vf classes but another ancestry
+# (all direct subclasses of Exception, VfC' even of LookupError)
+for _n, _b in (('VfA', Exception), ('VfB', Exception), ('VfC', LookupError),
+               ('VfX', ArithmeticError), ('VfM', Exception)):
+    EXC['twin:' + _n] = type(_n, (_b,), {})
+
+
 class Injected(Exception):
     """Marker mixin is not used: the injected exception is VfA itself so
     that dtml-except VfA handlers can catch it."""
